@@ -1230,7 +1230,12 @@ impl Model {
 
     fn apply_async(&mut self, op: OpRef, t: u8, o: &Op, inner: &[Op], idx: usize, is_inner: bool) -> R {
         if is_inner {
-            return err("no async ops inside closures or poll bodies");
+            // nested adapters: a poll body may poll another task (which then runs without a body
+            // of its own); nothing else asynchronous happens inside closures or bodies
+            match o {
+                Op::Poll { task, .. } if inner.is_empty() && self.cur_task.is_some() && self.cur_task != Some(*task) => {}
+                _ => return err("no async ops inside closures or poll bodies"),
+            }
         }
         match o {
             Op::NewTask { task, wrap, span } => {
@@ -1320,9 +1325,10 @@ impl Model {
                     self.poll_nodes.push(tk.node);
                     eop = true;
                 }
+                let outer_task = self.cur_task;
                 self.cur_task = Some(*task);
                 let r = self.run_inner(idx, t, inner);
-                self.cur_task = None;
+                self.cur_task = outer_task;
                 r?;
                 if eop {
                     self.pop_handle(t, op, None)?;
